@@ -486,9 +486,9 @@ IdVariants(p) ==
     <<"participant-added", [p EXCEPT !.parts = Append(@, "W4")]>>,
     <<"both-flags", [p EXCEPT !.ledger = ~@, !.virt = ~@]>> }
   \cup { <<"participant-address", [p EXCEPT !.parts[i] = "W5"]>> : i \in 1..Len(p.parts) }
-  \* the FIRST participant without any address: no backend can compute an id for it (for later participants nothing
-  \* in the documented constraints forbids it, so that is not a case)
-  \cup { <<"empty-participant", [p EXCEPT !.parts[1] = "W0"]>> }
+  \* a participant without any address: for the FIRST one no backend can compute an id; NewParams refuses every one
+  \* ("participant i has no address"), and so must the decoder, which restores parameters through it
+  \cup { <<"empty-participant", [p EXCEPT !.parts[1] = "W0"]>>, <<"empty-participant-2", [p EXCEPT !.parts[2] = "W0"]>> }
   \cup (IF Len(p.parts) > 2 THEN { <<"participant-removed", [p EXCEPT !.parts = Drop(@)]>> } ELSE {})
   \cup (IF p.nonce = "5" THEN { <<"nonce-leading-zeros", [p EXCEPT !.nonce = "lz5"]>> } ELSE {})
   \cup { <<"zero-challenge-duration", [p EXCEPT !.cd = 0]>>, <<"one-participant", [p EXCEPT !.parts = <<"W1">>]>>,
